@@ -121,70 +121,46 @@ example : initEntries exSchema ['R'] = .ok [(['R'], 3), (['S'], 1), (['T'], 1)] 
 
 /-! ### print -> parse
 
-  FULL STATEMENT (false on the code as written):
+  FULL STATEMENT (still false on the code as written, because of schemas without a root):
     `∀ t σ, parse t = .ok σ → ∃ σ', parse (prettyPrint σ) = .ok σ' ∧ σ'.Equiv σ
-        ∧ ∀ r ∈ σ.rootNames, wire σ' r = wire σ r` -/
+        ∧ ∀ r ∈ σ.rootNames, wire σ' r = wire σ r`
+
+  The three PrettyPrint defects recorded earlier (`print-array-elem-dict`, `print-enum-as-uint64`,
+  `print-enum-dict-unparsable`) were repaired by commit e46c0b0; `Stef/SchemaPrint.lean`
+  transcribes the repaired printer and their former witnesses round-trip now (examples below). -/
 
 def PrintParse : Prop :=
   ∀ (t : List Char) (σ : Schema), parse t = .ok σ →
     ∃ σ', parse (prettyPrint σ) = .ok σ' ∧ σ'.Equiv σ ∧ ∀ r ∈ σ.rootNames, wire σ' r = wire σ r
 
-/-- `print-array-elem-dict`: the dictionary of an array element type is not printed. -/
-def wArrayDict : List Char := "package a struct R root { F []string dict(D) }".toList
-def sArrayDict : Schema :=
-  { pkg := [['a']],
-    structs := [{ name := ['R'], isRoot := true,
-                  fields := [{ name := ['F'], ty := .array { prim := some .string, dict := ['D'] } [] false }] }] }
-def sArrayDict' : Schema :=
-  { pkg := [['a']],
-    structs := [{ name := ['R'], isRoot := true,
-                  fields := [{ name := ['F'], ty := .array { prim := some .string } [] false }] }] }
+/-- CONJECTURE (tested by `h_schema`, NOT proved): the property restricted to schemas that keep
+    at least one struct. Kept as a definition so that the statement is visible. -/
+def PrintParseSafe : Prop :=
+  ∀ (t : List Char) (σ : Schema), parse t = .ok σ → σ.PrintSafe →
+    ∃ σ', parse (prettyPrint σ) = .ok σ' ∧ σ'.Equiv σ ∧ ∀ r ∈ σ.rootNames, wire σ' r = wire σ r
 
-theorem print_parse_false_array_dict : ¬ PrintParse := by
-  intro h
-  obtain ⟨σ', h1, h2, _⟩ := h wArrayDict sArrayDict (by decide +kernel)
-  have h3 : parse (prettyPrint sArrayDict) = .ok sArrayDict' := by decide +kernel
-  rw [h3] at h1
-  cases h1
-  revert h2
-  decide
+/-- does the text round-trip: accepted, printed text accepted, result equivalent, same wire
+    schema for root `R`. (A decidable test used for the examples only.) -/
+def roundTrips (t : List Char) : Bool :=
+  match parse t with
+  | .ok σ =>
+    (match parse (prettyPrint σ) with
+      | .ok σ' => decide (σ'.Equiv σ) && decide (wire σ' ['R'] = wire σ ['R'])
+      | _ => false)
+  | _ => false
 
-/-- `print-enum-as-uint64`: an enum-typed field is printed as `uint64`. -/
-def wEnum : List Char := "package a struct R root { F E } enum E { X = 1 }".toList
-def sEnum1 : Schema :=
-  { pkg := [['a']],
-    structs := [{ name := ['R'], isRoot := true,
-                  fields := [{ name := ['F'], ty := .base { prim := some .uint64, enum := ['E'] } }] }],
-    enums := [{ name := ['E'], fields := [⟨['X'], 1⟩] }] }
-def sEnum1' : Schema :=
-  { pkg := [['a']],
-    structs := [{ name := ['R'], isRoot := true,
-                  fields := [{ name := ['F'], ty := .base { prim := some .uint64 } }] }] }
-
-theorem print_parse_false_enum : ¬ PrintParse := by
-  intro h
-  obtain ⟨σ', h1, h2, _⟩ := h wEnum sEnum1 (by decide +kernel)
-  have h3 : parse (prettyPrint sEnum1) = .ok sEnum1' := by decide +kernel
-  rw [h3] at h1
-  cases h1
-  revert h2
-  decide
-
-/-- `print-enum-dict-unparsable`: `F E dict(D)` prints as `F uint64 dict(D)`, which is rejected. -/
-def wEnumDict : List Char := "package a struct R root { F E dict(D) } enum E { X = 1 }".toList
-def sEnumDict : Schema :=
-  { pkg := [['a']],
-    structs := [{ name := ['R'], isRoot := true,
-                  fields := [{ name := ['F'], ty := .base { prim := some .uint64, enum := ['E'], dict := ['D'] } }] }],
-    enums := [{ name := ['E'], fields := [⟨['X'], 1⟩] }] }
-
-theorem print_parse_false_enum_dict : ¬ PrintParse := by
-  intro h
-  obtain ⟨σ', h1, _⟩ := h wEnumDict sEnumDict (by decide +kernel)
-  have h3 : (match parse (prettyPrint sEnumDict) with | .error _ .dictPrim => true | _ => false) = true := by
-    decide +kernel
-  rw [h1] at h3
-  cases h3
+/-- former witness of `print-array-elem-dict` (also with a second dict on a multimap key). -/
+example : roundTrips "package a struct R root { F []string dict(D) }".toList = true := by
+  decide +kernel
+example : roundTrips ("package a struct R root { F M } " ++
+    "multimap M { key []string dict(A) dict(B) value []R dict(C) }").toList = true := by
+  decide +kernel
+/-- former witness of `print-enum-as-uint64`. -/
+example : roundTrips "package a struct R root { F E G []E } enum E { X = 1 }".toList = true := by
+  decide +kernel
+/-- former witness of `print-enum-dict-unparsable`. -/
+example : roundTrips "package a struct R root { F E dict(D) } enum E { X = 1 }".toList = true := by
+  decide +kernel
 
 /-- `print-empty-schema-unparsable`: without a root everything is pruned; `package a` alone is
     rejected by the parser. -/
@@ -200,9 +176,9 @@ theorem print_parse_false_empty : ¬ PrintParse := by
 /-- PARTIAL: the second conclusion of the property follows from the first - if the printed text
     re-parses to an equivalent schema, the wire schema of every root is unchanged ("hence the same
     wire schema for every root"). Holds for every accepted schema, recursive or not.
-    MISSING (not proved, only tested by `h_schema` pass A on thousands of generated trigger-free
-    schemas and all checked-in ones): that for every accepted `σ` with `σ.PrintSafe` (no
-    dictionary on an array/array element, no enum-typed field, at least one struct)
+    MISSING (not proved, only tested by `h_schema` on thousands of generated schemas - enums,
+    dictionaries on array elements, recursion included - and all checked-in ones): that for
+    every accepted `σ` with `σ.PrintSafe` (at least one struct left after pruning)
     `parse (prettyPrint σ)` is `.ok σ'` with `σ'.Equiv σ`. That needs a lexer round trip for
     identifiers/numbers/layout and idempotence of resolve/mark/prune on an already pruned
     schema. -/
@@ -212,14 +188,9 @@ theorem print_parse_partial (t : List Char) (σ σ' : Schema) (h : parse t = .ok
   wire_of_equiv he (Stef.Props.C12.parse_ok_wf t σ h).top_unique
     (Stef.Props.C12.parse_ok_wf _ σ' h').top_unique r
 
-/-- non-vacuity: the sample of C12 without its enum and array-element dictionaries round-trips
-    to an equivalent schema (definition order differs: PrettyPrint sorts by name). -/
-def safeSample : List Char :=
-  ("package a.b multimap M { key string dict(K) value []A } " ++
-   "oneof O { I int64 S A } struct A dict(DA) { N string dict(DN) optional R []A M M O O } " ++
-   "struct R root { A A } struct R2 root { U uint64 }").toList
-
-example : (match parse safeSample with
+/-- non-vacuity: the sample of C12 (enum, array-element dictionary, recursion, two roots)
+    round-trips to an equivalent schema (definition order differs: PrettyPrint sorts by name). -/
+example : (match parse Stef.Props.C12.sample with
     | .ok σ => (match parse (prettyPrint σ) with
         | .ok σ' => decide (σ'.Equiv σ) && decide (σ' ≠ σ) && decide (wire σ' ['R'] = wire σ ['R'])
         | _ => false)
